@@ -121,6 +121,7 @@ func (s *serverSocket) upgradeTo(t ServerTransport, c *transport.Callbacks) {
 	vhook.Event("eio.s.swap", "o", s, "to", t, "pk", qp)
 	for _, p := range qp {
 		if p.Type != parser.PacketTypeNoop {
+			vhook.Event("eio.s.resend", "o", s, "pk", []*parser.Packet{p})
 			t.Send(p)
 		}
 	}
